@@ -2,6 +2,7 @@ import Driver.Util
 import Driver.TirJson
 import Tx3Model.Lang
 import Tx3Model.LangLower
+import Tx3Model.LangAdhoc
 import Tx3Model.Conway
 
 /-! Judge for C01: the generator's tree → `⟦P⟧` in Lean, against the transaction the real pipeline
@@ -169,7 +170,7 @@ def judge (j : Json) : R Verdict := do
     spec := spec ++ ["front-end-rejects-core-program:" ++ ((e.splitOn ":").head!)]
     return { i, corr, spec, nt := true, key, tags := tags ++ ["front-err"] }
   -- the model of analysis + lowering against the IR the real front end produced
-  match lowerTx { prog, tx } with
+  match lowerTxFull { prog, tx } with
   | .ok mt =>
     let real ← parseTx (← field obs "lowered")
     if (txJson (canonTx mt)).compress != (txJson (canonTx real)).compress then
@@ -213,7 +214,8 @@ def judge (j : Json) : R Verdict := do
         (match d.validFrom with | some v => v < 0 || v ≥ 2^64 | none => false) ||
         (match d.validUntil with | some v => v < 0 || v ≥ 2^64 | none => false) ||
         d.metadata.any (fun kv => kv.1 < 0 || kv.1 ≥ 2^64 || (match kv.2 with | .int v => v < -(2:Int)^64 || v ≥ 2^64 | _ => false)) ||
-        d.mint.any (fun kv => kv.2 < -(2:Int)^63 || kv.2 ≥ 2^63)
+        d.mint.any (fun kv => kv.2 < -(2:Int)^63 || kv.2 ≥ 2^63) ||
+        (match d.donation with | some v => v ≤ 0 || v ≥ 2^64 | none => false)
       if outOfRange then tags := tags ++ ["denotation-out-of-range"]
       else if propOutside then
         spec := spec ++ ["progress:input-property-outside-datum-position"]
@@ -261,7 +263,8 @@ def judge (j : Json) : R Verdict := do
           | .int v => DMeta.int v | .text s => DMeta.text s | .bytes b => DMeta.bytes b)
         let mdLe := fun (a b : Int × DMeta) => decide (a.1 ≤ b.1)
         if sortBy mdLe mdGot != sortBy mdLe d.metadata then spec := spec ++ ["metadata"]
-        if !atx.withdrawals.isEmpty || !atx.certs.isEmpty || atx.donation.isSome then spec := spec ++ ["something-added"]
+        if atx.donation != d.donation then spec := spec ++ ["donation"]
+        if !atx.withdrawals.isEmpty || !atx.certs.isEmpty then spec := spec ++ ["something-added"]
         if tx.outputs.any (·.datum.isSome) then tags := tags ++ ["has-datum"]
         if !tx.locals.isEmpty then tags := tags ++ ["locals"]
         if !tx.mints.isEmpty then tags := tags ++ ["mint"]
